@@ -760,6 +760,9 @@ func c13GenStarts(r *rng) []*c13Start {
 		mk("empty", []byte{}, false)
 		mk("nilhash", d, true)
 		mk("otherfile", c13FH(hn, other, false), false)
+		// the digest written out as text (what sha256sum prints) is a different checksum: twice as long, other bytes
+		mk("hex", []byte(hex.EncodeToString(d)), false)
+		mk("HEX", []byte(strings.ToUpper(hex.EncodeToString(d))), false)
 		if tier() == "thorough" {
 			for i := 0; i < 12; i++ {
 				mk("flip:rand", c13FlipBit(d, q.intn(8*L)), false)
